@@ -672,3 +672,44 @@ def cast_date3(y, m, d):
     elif got is not None:
         return 'invalid-date-not-null'
     return 'ok'
+
+
+# ---------------------------------------------------------------------------
+# the case-sensitive string functions keep their definition whatever used the same pattern text before
+
+@cond('C18.string.regex-history', quick=120,
+      bounds='fixture ledger; in one process: a statement using has_account(p) or account ~ p (both ignore case) first, then grep(p, '
+             'account), grepn(p, account, 0), subst(p, "_", account) and findfirst(p, other_accounts) for p in {bank, ASSETS, Food, x}: the '
+             'string functions still equal their (case-sensitive) re definitions; and in the opposite order has_account still '
+             'ignores case',
+      symbolic='(none)', enumerated='pattern, which statement comes first', params={'pi': int, 'first': int})
+def string_regex_history(pi, first):
+    pattern = pick(['bank', 'ASSETS', 'Food', 'x'], pi)
+    first = enum_int(first, 0, 2)
+
+    def run():
+        from .. import ledger
+        conn = ledger.connect()
+        accounts = sorted({r[0] for r in conn.execute('SELECT DISTINCT account').fetchall()})
+
+        def functions():
+            rows = conn.execute(f"SELECT DISTINCT account, grep('{pattern}', account) AS g, grepn('{pattern}', account, 0) AS n, "
+                                f"subst('{pattern}', '_', account) AS u ORDER BY account").fetchall()
+            want = []
+            for acc in accounts:
+                m = re.search(pattern, acc)
+                want.append((acc, m.group(0) if m else None, m.group(0) if m else None, re.sub(pattern, '_', acc)))
+            return 'ok' if rows == want else 'string-function-differs-from-its-definition'
+
+        def insensitive():
+            got = sorted({r[0] for r in conn.execute(f"SELECT DISTINCT account FROM has_account('{pattern}') WHERE account ~ '{pattern}'")
+                          .fetchall()})
+            want = [a for a in accounts if re.search(pattern, a, re.IGNORECASE)]
+            return 'ok' if got == want else 'case-insensitive-match-differs'
+        order = [[functions, insensitive, functions], [insensitive, functions, insensitive], [functions, functions]][first]
+        for step in order:
+            label = step()
+            if label != 'ok':
+                return label
+        return 'ok'
+    return native(run)
